@@ -323,8 +323,17 @@ def node_record(inp, mat):
     scan(inp["params"])
     toks.discard("$ES/data")
     # inHome: below the ES home directory (path containment); pre: the path STRING starts with the ES home path
-    watch = [{"p": "$ES", "inHome": True, "pre": True}, {"p": "$ES/data", "inHome": True, "pre": True}]
-    watch += [{"p": t, "inHome": t.startswith("$ES/"), "pre": t.startswith("$ES")} for t in sorted(toks)]
+    watch = [{"p": "$ES", "inHome": True, "pre": True, "stuck": False}, {"p": "$ES/data", "inHome": True, "pre": True, "stuck": False}]
+    watch += [{"p": t, "inHome": t.startswith("$ES/"), "pre": t.startswith("$ES"), "stuck": False} for t in sorted(toks)]
+    # in a third of the cases one candidate data directory on another root cannot be deleted when the node is cleaned up (it has
+    # been replaced by a plain file: rmtree raises OSError); the choice depends on the case only
+    ext = [w for w in watch if not w["pre"]]
+    if ext:
+        import hashlib
+
+        h = int(hashlib.sha1(repr(sorted(toks)).encode("utf-8") + repr(sorted(inp["params"])).encode("utf-8")).hexdigest(), 16)
+        if h % 3 == 0:
+            ext[(h // 3) % len(ext)]["stuck"] = True
     return {"vars": nv, "default_data": "$ES/data", "home": "$ES", "watch": watch}
 
 
@@ -640,7 +649,13 @@ def execute(root, inp, mat, archive_dir):
     # the nodes have run: every candidate data directory, the logs and the installation contain something
     for w in inp["node"]["watch"]:
         rp = lay.real(w["p"])
-        if w["p"] != "$ES":
+        if w.get("stuck"):
+            # something Rally cannot delete sits where the data directory was (shutil.rmtree raises NotADirectoryError)
+            shutil.rmtree(rp, ignore_errors=True)
+            os.makedirs(os.path.dirname(rp), exist_ok=True)
+            with open(rp, "w", encoding="utf-8") as fh:
+                fh.write("not a directory")
+        elif w["p"] != "$ES":
             os.makedirs(os.path.join(rp, "nodes", "0"), exist_ok=True)
             with open(os.path.join(rp, "nodes", "0", "node.lock"), "w", encoding="utf-8") as fh:
                 fh.write(w["p"])
